@@ -247,6 +247,24 @@ def templates():
         T.append(head + [("for", "k", ("post", "iter", ("array", [I(7), I(8), I(9)])), ("block", bd)), ("pre", "deref", V("r"))])
         T.append([("fndecl", "run", [("n", INT)], INT, head + [("loop", ("block", [("if", ("bin", "ge", ("pre", "deref", V("i")), V("n")), ("block", [("return", ("pre", "deref", V("r")))]), None)] + bd))]),
                   ("tuple", [("call", V("run"), [I(1)]), ("call", V("run"), [I(3)])])])
+    # inside a function body: a name that is a plain ALIAS of a captured function (`step := inc`), then re-declared as a
+    # function of the SAME signature, then used - in the same scope, a nested block, after destructuring, in a `mod` body
+    INC = ("fndecl", "inc", [("v", INT)], INT, [("return", ("bin", "add", V("v"), I(1)))])
+    DEC = ("fndecl", "dec", [("v", INT)], INT, [("return", ("bin", "sub", V("v"), I(1)))])
+    NEW = ("fndecl", "step", [("v", INT)], INT, [("return", ("bin", "add", V("v"), I(100)))])
+    use = ("call", V("step"), [I(1)])
+    bodies = [
+        [("set", "step", V("inc")), NEW, ("return", use)],
+        [("set", "step", V("inc")), ("set", "r0", use), NEW, ("return", ("bin", "add", V("r0"), use))],
+        [("set", "step", V("inc")), ("block", [NEW, ("set", "inner", use)]), ("return", use)],
+        [("set", "step", V("inc")), ("set", "r", ("block", [NEW, use])), ("return", V("r"))],
+        [("destruct", ["step", "other"], ("tuple", [V("inc"), V("dec")])), NEW, ("return", ("bin", "add", use, ("call", V("other"), [I(10)])))],
+        [("set", "step", V("inc")), ("set", "m", ("mod", [NEW, ("fndecl", "twice", [("v", INT)], INT, [("return", ("call", V("step"), [("call", V("step"), [V("v")])]))])])),
+         ("return", ("call", ("facc", V("m"), "twice"), [I(1)]))],
+        [("set", "step", V("inc")), ("fndecl", "deep", [], INT, [NEW, ("return", use)]), ("return", ("bin", "add", ("call", V("deep"), []), use))],
+    ]
+    for b in bodies:
+        T.append([INC, DEC, ("fndecl", "outer", [], INT, b), ("tuple", [("call", V("outer"), []), ("call", V("outer"), [])])])
     return T
 
 
